@@ -63,10 +63,11 @@ func (a *application) start(mode gen.ApplicationMode, options gen.ApplicationOpt
 
 		pid, err := a.node.spawn(item.Factory, opts)
 		if err != nil {
-			a.group.Range(func(pid gen.PID, _ bool) bool {
+			// Kill may terminate the member right here, which calls back into
+			// a.terminate and takes the group lock: do not kill under Range
+			for _, pid := range a.members() {
 				a.node.Kill(pid)
-				return true
-			})
+			}
 			atomic.StoreInt32(&a.state, int32(gen.ApplicationStateLoaded))
 			return err
 		}
@@ -120,14 +121,15 @@ func (a *application) stop(force bool, timeout time.Duration) error {
 	// update mode to prevent triggering 'permantent' mode
 	a.mode = gen.ApplicationModeTemporary
 
-	a.group.Range(func(pid gen.PID, _ bool) bool {
+	// Kill may terminate the member right here, which calls back into
+	// a.terminate and takes the group lock: do not kill under Range
+	for _, pid := range a.members() {
 		if force {
 			a.node.Kill(pid)
 		} else {
 			a.node.SendExit(pid, gen.TerminateReasonShutdown)
 		}
-		return true
-	})
+	}
 
 	if force {
 		a.reason = gen.TerminateReasonKill
@@ -223,6 +225,15 @@ func (a *application) terminate(pid gen.PID, reason error) {
 		return
 	}
 	a.registerAppRoute() // new state for the app
+}
+
+func (a *application) members() []gen.PID {
+	var members []gen.PID
+	a.group.Range(func(pid gen.PID, _ bool) bool {
+		members = append(members, pid)
+		return true
+	})
+	return members
 }
 
 func (a *application) info() gen.ApplicationInfo {
